@@ -1443,6 +1443,9 @@ class Extractor:
                 out.append(non1[used])
                 used += 1
             else:
+                if getattr(k, "is_Integer", False) or isinstance(k, int):
+                    raise KernelDefect(f"`{ast.unparse(node)[:70]}` reshapes to a fixed extent {k}: an axis whose length is a shell's number of primitives / "
+                                       f"components cannot be folded into {k} (ValueError for most lengths, mis-aligned broadcasting for the rest)", node)
                 self.err(f"reshape target `{k}`", node)
         if used != len(non1):
             self.err("reshape drops an axis", node)
